@@ -485,6 +485,183 @@ def r6_error_iterator_steps(ctx):
              '' if not bad else bad[0] + ': the error nodes in between never reach the report')
 
 
+class _TreeNode(object):
+    """model of an error-tree node for the iterator: structure and closed flag are set by the scenario"""
+    _sa_model = True
+
+    def __init__(self, id, parent=None):
+        self.id = id
+        self.parent = parent
+        self.children = []
+        self.closed = id == 'ROOT' or id not in ('ISA', 'GS', 'ST')
+        if parent is not None:
+            parent.children.append(self)
+
+    def get_first_child(self):
+        return self.children[0] if self.children else None
+
+    def get_next_sibling(self):
+        if self.parent is None:
+            return None
+        i = self.parent.children.index(self)
+        return self.parent.children[i + 1] if i + 1 < len(self.parent.children) else None
+
+    def get_parent(self):
+        return self.parent
+
+    def is_closed(self):
+        return self.closed
+
+    def __repr__(self):
+        return self.id
+
+
+def _iter_step(ctx, fn, cur, stack):
+    """one err_iter.__next__ by constant propagation: ('moved'|'stopped', cur_node, visit_stack)"""
+    from ..absint import explore, NotClosedTest
+    g = ctx.cfg(fn)
+    outs = []
+
+    def on_node(nd, env):
+        if nd.kind == 'raise':
+            outs.append(('stopped', env.get('self.cur_node'), env.get('self.visit_stack')))
+        elif nd.kind == 'return':
+            outs.append(('moved', env.get('self.cur_node'), env.get('self.visit_stack')))
+        elif nd is g.exit and not env.get('@done'):
+            pass
+
+    def unk(nd, env):
+        raise NotClosedTest(ast.unparse(nd.ast) if nd.ast is not None else '?')
+    fell = []
+
+    def on_node2(nd, env):
+        on_node(nd, env)
+        if nd.kind not in ('raise', 'return') and any(s_ is g.exit and l != 'exc' for s_, l in nd.succ) and nd.kind != 'test':
+            fell.append(('moved', nd, env))
+    visited = explore(g, {'self.cur_node': cur, 'self.visit_stack': tuple(stack)}, on_node=on_node2, on_unknown=unk)
+    # a path that falls off the end is a normal return: its environment is the one after the last statement - re-run with a
+    # recorder at the exit node
+    if not outs or fell:
+        res = []
+
+        def at_exit(nd, env):
+            if nd is g.exit:
+                res.append(('moved', env.get('self.cur_node'), env.get('self.visit_stack')))
+        explore(g, {'self.cur_node': cur, 'self.visit_stack': tuple(stack)}, on_node=at_exit, on_unknown=unk)
+        stopped = [o for o in outs if o[0] == 'stopped']
+        outs = stopped if stopped else res
+    uniq = []
+    for o in outs:
+        if o not in uniq:
+            uniq.append(o)
+    if len(uniq) != 1:
+        raise AnalysisError('err_iter.__next__: %d outcomes from node %s' % (len(uniq), cur))
+    return uniq[0]
+
+
+def r8_iterator_collects(ctx):
+    """the report driver steps the iterator after every segment until it stops and prints the errors of the nodes it
+    passed.  err_iter.__next__ decided by constant propagation over model trees, replaying the driver for an interchange
+    / group / set (with and without segment nodes below the set), then a second interchange: the set node is collected
+    at its ST and again at its SE, the group at GS and GE, the interchange at ISA and IEA - also when nothing below it
+    had an error - and the nodes of the second interchange are collected like those of the first."""
+    fn = ctx.func('error_handler', 'err_iter.__next__')
+    bad = []
+    scenarios = 0
+    for with_segs in (False, True):
+        root = _TreeNode('ROOT')
+        state = {'cur': root, 'stack': ()}
+
+        def drive():
+            got = []
+            for _i in range(12):
+                kind, cur, stack = _iter_step(ctx, fn, state['cur'], state['stack'])
+                state['cur'], state['stack'] = cur, tuple(stack or ())
+                if kind == 'stopped':
+                    return got
+                got.append(cur)
+            raise AnalysisError('err_iter.__next__ does not stop on a finite tree')
+        log = []
+        for n_isa in (1, 2):
+            isa = _TreeNode('ISA', root)
+            log.append(('ISA%d' % n_isa, [isa], drive()))
+            gs = _TreeNode('GS', isa)
+            log.append(('GS', [gs], drive()))
+            st = _TreeNode('ST', gs)
+            log.append(('ST', [st], drive()))
+            log.append(('body segment without errors', [], drive()))
+            if with_segs:
+                s1 = _TreeNode('NM1', st)
+                log.append(('body segment with errors', [s1], drive()))
+                s2 = _TreeNode('CLM', st)
+                log.append(('body segment with errors', [s2], drive()))
+            st.closed = True
+            log.append(('SE', [st], drive()))
+            gs.closed = True
+            log.append(('GE', [gs], drive()))
+            isa.closed = True
+            log.append(('IEA', [isa], drive()))
+        scenarios += 1
+        for seg, want, got in log:
+            if got != want and len(bad) < 3:
+                bad.append('%s: at %s the report collects %s, the errors to print there are on %s' % (
+                    'set with segment errors' if with_segs else 'set without segment errors', seg, got or 'nothing', want or 'no node'))
+    yield Ob('error_handler:err_iter.__next__ collects each loop node at its header and at its trailer, in every interchange', not bad, ctx.floc(fn),
+             '' if not bad else '; '.join(bad), note='%d scenarios' % scenarios)
+
+
+_LEVELS = (('err_isa', 'isa', 'ISA', 'IEA'), ('err_gs', 'gs', 'GS', 'GE'), ('err_st', 'st', 'ST', 'SE'))
+
+
+def _raised_codes(ctx, level):
+    """literal codes the reader raises for an envelope level: (at the header, at the trailer / at end of input)"""
+    out = []
+    for quals in (('X12Base._parse_segment',), ('X12Reader._parse_segment', 'X12Reader.cleanup')):
+        codes = set()
+        for q in quals:
+            for f in ctx.region('x12file', q):
+                for c in A.calls_in(f):
+                    if A.call_target(c) == ('self', '_%s_error' % level) and c.args and A.is_str(c.args[0]):
+                        codes.add(c.args[0].value)
+        out.append(codes)
+    return out
+
+
+def r7_node_filters(ctx):
+    """the report asks an interchange / group / set node twice for its errors - at the header line and at the trailer
+    line (get_error_list(seg_id)).  Decided by constant propagation per code: every code is listed at exactly one of the
+    two lines, a code the reader raises while reading the header (control number reuse) at the header, a code it raises
+    at the trailer or at end of input (counts, control numbers, missing trailers) at the trailer, and nothing at any
+    other segment."""
+    from ..absint import run_function, helper_oracles, NotClosedTest
+    hfuncs = helper_oracles(ctx, 'error_handler')
+    for cname, level, hdr, trl in _LEVELS:
+        fn = ctx.func('error_handler', cname + '.get_error_list')
+        at_hdr, at_trl = _raised_codes(ctx, level)
+        universe = sorted(set(('1', '2', '3', '4', '5', '6', '7', '23', '001', '021', '023', '024', '025')) | at_hdr | at_trl)
+        bad = []
+        for code in universe:
+            err = (code, 'message')
+            where = []
+            for sid in (hdr, trl, 'NM1'):
+                try:
+                    got = run_function(ctx.cfg(fn), fn, [None, sid, False], hfuncs, env={'self.errors': (err,)})
+                except (NotClosedTest, A.NotClosed) as e:
+                    raise AnalysisError('%s.get_error_list cannot be decided: %s' % (cname, e))
+                if got and err in tuple(got):
+                    where.append(sid)
+            want = None
+            if code in at_hdr and code not in at_trl:
+                want = [hdr]
+            elif code in at_trl and code not in at_hdr:
+                want = [trl]
+            if len(where) != 1 or where[0] not in (hdr, trl) or (want is not None and where != want):
+                bad.append('code %s%s is listed at %s' % (code, ' (raised at the %s)' % ('header' if want == [hdr] else 'trailer') if want else '',
+                                                         ' and '.join(where) if where else 'neither the %s nor the %s line' % (hdr, trl)))
+        yield Ob('error_handler:%s.get_error_list lists every code at exactly one of %s / %s, where the reader raised it' % (cname, hdr, trl), not bad,
+                 ctx.floc(fn), '' if not bad else '; '.join(bad[:3]), note='%d codes, %d raised by the reader' % (len(universe), len(at_hdr | at_trl)))
+
+
 def r5_escaped_once(ctx):
     """stripping the markup recovers the source: text is escaped exactly once.  A self attribute that already holds
     escaped text (assigned from escape_html_chars) must not be passed through escape_html_chars again."""
@@ -517,5 +694,7 @@ RULES = [
     Rule('C19.R3', 'header before, one gen_seg per iteration, footer after (CFG)', r3_every_segment, floor=4),
     Rule('C19.R4', 'error code filters partition the codes; all nodes, element errors and positions rendered', r4_every_error, floor=4),
     Rule('C19.R6', 'the error iterator steps from a node to its immediate next sibling (no error node is passed over)', r6_error_iterator_steps, floor=1),
+    Rule('C19.R7', 'node-level error filters: each code at exactly one of header / trailer line, where the reader raises it', r7_node_filters, floor=3),
+    Rule('C19.R8', 'error iterator replayed over model trees: every loop node collected at header and trailer, second interchange included', r8_iterator_collects, floor=1),
     Rule('C19.R5', 'no text is escaped twice', r5_escaped_once, floor=5),
 ]
